@@ -292,16 +292,23 @@ LOk == {Id("a"), Mem(Id("o"), "p"), Mem(Mem(Id("o"), "q"), "r"), Idx(Id("l"), Li
         (* each conditional followed by its own member: the segments keep their order *)
         Mem(Cond(Id("c"), Mem(Cond(Id("a"), Id("o"), Id("o")), "q"), Mem(Id("o"), "q")), "r"),
         Idx(Cond(Id("c"), Mem(Idx(Cond(Id("a"), Id("l"), Id("l")), Lit("0")), "sub"), Mem(Idx(Id("l"), Lit("0")), "sub")), Id("i"))}
+(* conditions that are computed - a negation, a double negation, a comparison, a conjunction: the path is that of the
+   branch the CONDITION'S VALUE selects (the condition does not read the location the branch names: writing there
+   would change the branch, and get-put is stated for the branch taken) *)
+LCondOk == {Cond(Un("!", Id("c")), Mem(Id("o"), "p"), Mem(Id("o2"), "p")), Mem(Cond(Un("!", Un("!", Id("c"))), Id("o"), Id("o2")), "p"),
+            Cond(Bin("===", Id("a"), Lit("1")), Mem(Id("o"), "p"), Mem(Id("o2"), "p")), Mem(Cond(Un("!", Id("a")), Id("o"), Id("o2")), "p"),
+            Cond(Bin("&&", Id("c"), Id("b")), Mem(Id("o"), "p"), Id("a")), Cond(Un("!", Id("c")), Id("a"), Bin("+", Id("a"), Lit("1")))}
 LBad == {Bin("+", Id("a"), Lit("1")), Un("!", Id("a")), Lit("'x'"), Lit("1"), Call(Id("f"), <<Id("a")>>),
          Idx(Arr(<<Item(Id("a"))>>), Lit("0")), Mem(Obj(<<Named("p", Id("a"))>>), "p"), Bin("||", Id("a"), Id("b")),
          Arr(<<Item(Id("a"))>>), Obj(<<Named("p", Id("a"))>>)}
-LAll == LOk \cup LBad
+LAll == LOk \cup LCondOk \cup LBad
 WxsIn  == [n |-> "m", members |-> << <<"f", VF("f2")>>, <<"g", VO(<< <<"h", VF("f1")>> >>)>>, <<"list", VA(<< VO(<< <<"f", VF("f2")>> >>) >>)>> >>]
 WxsExt == [n |-> "x", src |-> "s", members |-> << <<"f", VF("f2")>>, <<"g", VO(<< <<"h", VF("f1")>> >>)>> >>]
 SExprs == {Mem(Id("m"), "f"), Mem(Mem(Id("m"), "g"), "h"), Mem(Id("x"), "f"), Mem(Mem(Id("x"), "g"), "h"), Id("m"),
            Cond(Id("c"), Mem(Id("m"), "f"), Mem(Id("x"), "f")), Cond(Id("c"), Mem(Id("m"), "f"), Id("a")),
            Idx(Id("m"), Id("b")), Call(Mem(Id("m"), "f"), <<Id("a")>>),
-           Mem(Cond(Id("c"), Id("m"), Id("x")), "f"), Mem(Mem(Cond(Id("c"), Id("m"), Id("x")), "g"), "h")}
+           Mem(Cond(Id("c"), Id("m"), Id("x")), "f"), Mem(Mem(Cond(Id("c"), Id("m"), Id("x")), "g"), "h"),
+           Cond(Un("!", Id("c")), Mem(Id("m"), "f"), Mem(Id("x"), "f")), Mem(Cond(Un("!", Id("a")), Id("m"), Id("x")), "f")}
 FileS(root) == << [path |-> "a", imports |-> <<>>, wxs |-> <<WxsIn, WxsExt>>, defs |-> <<>>, root |-> root] >>
 F7 ==    {FileS(<<Elem("v", <<Attr("model:", "v", EV(e))>>, <<>>)>>) : e \in LAll \cup SExprs}
     (* the items of a list that lives in a script module (no location of the data under model:, a script location for a handler),
